@@ -1,7 +1,7 @@
 (* A decision procedure for the fragment of Schema/Agreement.v, sound for it: the harness evaluates it on every case,
    so that the evidence says how much of the run lies inside the proved fragment. *)
 From Coq Require Import List ZArith Bool Lia.
-From Verif Require Import Base.Sx Base.GoVal Schema.Ast Schema.Build Schema.Pipeline Schema.Draft4 Schema.PipelineTerm Schema.Agreement.
+From Verif Require Import Base.Sx Base.GoVal Schema.Ast Schema.Build Schema.Pipeline Schema.Draft4 Schema.PipelineTerm Schema.AgreementData Schema.Agreement.
 Import ListNotations.
 Open Scope Z_scope.
 
@@ -93,7 +93,7 @@ Definition local_clean_b (s : schema) : bool :=
   forallb (fun e => jd_b (S (goval_depth e)) e) (s_enum s) &&
   (Z.eqb (s_pattern s) 0 || o_re_ok OR (s_pattern s)) &&
   (* arrays *)
-  negb (s_unique s) && (is_none (s_items_one s) || is_none (s_items_tuple s)) &&
+  (is_none (s_items_one s) || is_none (s_items_tuple s)) &&
   negb (match s_items_tuple s with Some [] => true | _ => false end) &&
   negb (match s_add_items s with Some (false, Some _) => true | _ => false end) &&
   (* objects *)
@@ -112,14 +112,13 @@ Proof.
   { intros Hn. rewrite Hn in H. cbn [negb orb] in H. apply andb_true_iff in H. destruct H as [H Hc]. apply andb_true_iff in H. destruct H as [Ha Hb].
     split; [revert Ha; destruct (s_all_of s); [reflexivity | discriminate]|].
     split; [revert Hb; destruct (s_any_of s); [reflexivity | discriminate] | revert Hc; destruct (s_not s); [discriminate | reflexivity]]. }
-  split; [revert L15; destruct (s_ref s); [discriminate | reflexivity]|].
-  split; [apply Z.eqb_eq; exact L14|].
-  split; [apply negb_true_iff; exact L13|].
-  split; [apply (forallb_Forall _ _ _ (fun e He => jd_b_sound _ e He) L12)|].
-  split; [apply orb_true_iff in L11; destruct L11 as [E | E]; [left; apply Z.eqb_eq; exact E | right; exact E]|].
+  split; [revert L14; destruct (s_ref s); [discriminate | reflexivity]|].
+  split; [apply Z.eqb_eq; exact L13|].
+  split; [apply negb_true_iff; exact L12|].
+  split; [apply (forallb_Forall _ _ _ (fun e He => jd_b_sound _ e He) L11)|].
+  split; [apply orb_true_iff in L10; destruct L10 as [E | E]; [left; apply Z.eqb_eq; exact E | right; exact E]|].
   split.
-  { split; [apply negb_true_iff; exact L10|].
-    split; [apply orb_true_iff in L9; destruct L9 as [E | E]; [left; revert E; destruct (s_items_one s); [discriminate | reflexivity] | right; revert E; destruct (s_items_tuple s); [discriminate | reflexivity]]|].
+  { split; [apply orb_true_iff in L9; destruct L9 as [E | E]; [left; revert E; destruct (s_items_one s); [discriminate | reflexivity] | right; revert E; destruct (s_items_tuple s); [discriminate | reflexivity]]|].
     split; [intros E; rewrite E in L8; discriminate|].
     intros sa E. rewrite E in L7. discriminate. }
   split.
